@@ -155,4 +155,26 @@ JMulNafFrom(c, acc, t, digits) ==       \* digits: most significant first
        IN  JMulNafFrom(c, a, t, Tail(digits))
 Reverse(s) == [j \in 1..Len(s) |-> s[Len(s) + 1 - j]]
 JMulNaf(c, t, k) == JMulNafFrom(c, JInfTriple, JScale(c, t), Reverse(Naf(k)))     \* k >= 0
+
+(* ---- table-driven multiplication of a generator (_maybe_precompute + _mul_precompute) ---------------------- *)
+(* the table: affine (x, y) of 2^i * P for i = 0, 1, ... while the running power i stays below 4 * order       *)
+RECURSIVE TableFrom(_, _, _, _)
+TableFrom(c, t, i, bound) ==        \* t: current doubler (scaled), i: its power of two
+  IF i >= bound THEN <<>>
+  ELSE LET d == JScale(c, JDbl(c, t[1], t[2], t[3]))
+       IN  <<<<d[1], d[2]>>>> \o TableFrom(c, d, 2 * i, bound)
+Table(c, t, order) == LET s == JScale(c, t) IN <<<<s[1], s[2]>>>> \o TableFrom(c, s, 1, 4 * order)
+
+(* signed-digit recoding consumed entry by entry *)
+RECURSIVE TableLoop(_, _, _, _)
+TableLoop(c, acc, tab, other) ==
+  IF tab = <<>> THEN acc
+  ELSE LET e == tab[1] IN
+       IF other % 2 = 1
+       THEN IF other % 4 >= 2
+            THEN TableLoop(c, JAdd(c, acc, <<e[1], 0 - e[2], 1>>), Tail(tab), (other + 1) \div 2)
+            ELSE TableLoop(c, JAdd(c, acc, <<e[1], e[2], 1>>), Tail(tab), (other - 1) \div 2)
+       ELSE TableLoop(c, acc, Tail(tab), other \div 2)
+(* __mul__ of a generator-flagged point with a declared order: k reduced modulo 2 * order first *)
+JMulTable(c, t, k, order) == TableLoop(c, JInfTriple, Table(c, t, order), k % (2 * order))
 =============================================================================
